@@ -59,7 +59,14 @@ Register-ArgumentCompleter -Native -CommandName '{bin_name}' -ScriptBlock {{
 
 // Escape string inside single quotes
 fn escape_string(string: &str) -> String {
-    string.replace('\'', "''").replace('’', "'’")
+    // PowerShell also accepts the typographic quotes U+2018, U+2019, U+201A and U+201B as
+    // single-quote characters; any of them is escaped by doubling
+    string
+        .replace('\'', "''")
+        .replace('‘', "'‘")
+        .replace('’', "'’")
+        .replace('‚', "'‚")
+        .replace('‛', "'‛")
 }
 
 fn escape_help<T: ToString>(help: Option<&StyledStr>, data: T) -> String {
